@@ -528,6 +528,7 @@ def run(ctx: RuleContext, p: Program) -> None:
     ctx.try_rule(rule_ed_glob, p, fns, 'ED-GLOB')
     ctx.try_rule(rule_ed_target, p, fns, 'ED-TARGET')
     ctx.try_rule(rule_ed_codec, p, fns, 'ED-CODEC')
+    ctx.try_rule(rule_ed_spell, p, fns, 'ED-SPELL')
     ctx.try_rule(rule_ed_pair, p, 'ED-PAIR', fns)
     ctx.not_decided += ['glob matching semantics', 'filesystem races', 'what the parser/printer produce (C01)']
     ctx.assumptions += ['Python io newline semantics: newline=None translates on read and to os.linesep on write; '
@@ -1086,3 +1087,32 @@ def rule_ed_codec(ctx: RuleContext, p: Program, fns: list[FuncInfo], rid: str) -
                           f'{fn.module.relpath}:{w["node"].lineno}', note='same encoding / errors on both sides')
     if n < 2:
         raise AnalysisError(f'ED-CODEC: only {n} read/write pairs found (2 confirmed by hand)')
+
+
+# ====================================================================== ED-SPELL (added in round 7)
+def rule_ed_spell(ctx: RuleContext, p: Program, fns: list[FuncInfo], rid: str) -> None:
+    ctx.rule(rid, '"any way of spelling the path": a path that is read or written is never first rewritten by os.path.normpath / abspath (or '
+                  'PurePath arithmetic that drops `..`), which collapse `dir/..` textually, without asking the file system.  When `dir` is a '
+                  'symbolic link to a directory elsewhere, the collapsed spelling names a DIFFERENT file than the one the operating system '
+                  'reaches through the original spelling: the editor then hands out, rewrites or deletes the wrong file')
+    n = 0
+    m = p.module('editor')
+    for fn in [f for f in p.functions_in(m) if f.kind != 'overload' and f.parent is None]:
+        for c in walk_no_nested(fn.node):
+            if isinstance(c, ast.Call) and (dotted(c.func) or '') in ('os.path.normpath', 'os.path.abspath', 'posixpath.normpath', 'ntpath.normpath'):
+                n += 1
+                ctx.fail(rid, f'editor:{fn.qualname}', 'textual path normalisation',
+                         f'`{norm(c)[:70]}` in {fn.qualname}: the collapsed spelling is what gets opened / written / deleted (and is the key of the '
+                         f'mapping); for `ledger/current/../accounts.bean` with `ledger/current` a symlink to `../archive/2024` it names '
+                         f'ledger/accounts.bean, while the path given denotes archive/accounts.bean -- the wrong file is edited',
+                         f'{m.relpath}:{c.lineno}')
+            elif isinstance(c, ast.Call) and isinstance(c.func, ast.Attribute) and c.func.attr in ('map',) and False:
+                pass
+        # normpath handed on as a function value: map(os.path.normpath, xs)
+        for c in walk_no_nested(fn.node):
+            if isinstance(c, ast.Call) and any((dotted(a) or '') in ('os.path.normpath', 'os.path.abspath') for a in c.args):
+                n += 1
+                ctx.fail(rid, f'editor:{fn.qualname}', 'textual path normalisation',
+                         f'`{norm(c)[:70]}` in {fn.qualname}: every path is collapsed textually before it is opened (see the rule text): through a '
+                         f'symlinked directory the collapsed spelling names another file', f'{m.relpath}:{c.lineno}')
+    ctx.ok(rid, 'editor.py', f'{n} textual normalisations of paths found and reported', nontrivial=False)
